@@ -871,3 +871,52 @@ Proof.
     split; [unfold undo_ok|unfold redo_ok]; cbn; unfold splice_ok, i31; cbn; repeat split; lia.
 Qed.
 End C04_translated_composed.
+
+(* ---- the corollary once more with undo_ok / redo_ok of the chain DERIVED from the ranges of the edit (edit_undo_redo_ok), and a sufficient
+   condition for `fits` that does not mention the growth loop: every mark row r is an int with r + n_ins inside int, the capacity is positive and
+   inside int, twice the new line count is inside int (the growth loop doubles: grow_le). *)
+Section C04_translated_composed2.
+Import Lia CLite CLiteProps CLiteExt GenCFuncs TrLbufBase TrUndoBase TrUndo TrUndoOpt TrUndoEdit TrSpliceMarks TrSpliceAll TrSpliceModels.
+Import TrCmp4Str TrCmp4Rep TrCmp4 TrCmp4Loop TrCmp4Edit TrCmp4Ex.
+Local Open Scope Z_scope.
+
+Theorem C04_tr_undo_inverts_edit_ranges : forall (ext : nat -> list val -> mem -> res (val * mem)) (fuelR dR : nat), ext_is_replace ext fuelR dR ->
+  forall (d fuel : nat) (m : mem) (bl : nat) (blk : block) (bh : nat) (hblk : block) (lb : lbuf) (bufv : val) (buf : option (list N)) (b e cap0 : nat) (cap' : Z),
+  cp_oracle ext Tc bl -> urep Tc m bl blk bh hblk lb -> bufarg m bl bh bufv buf ->
+  (forall (bb : nat) (o : Z), bufv = VPtr bb o -> ~ In bb (log_blocks hblk 0 (length (hist lb)))) ->
+  (forall (bb : nat) (o : Z) fp, bufv = VPtr bb o -> Tc m (tcells blk) fp (ln lb) -> ~ In bb fp) ->
+  (forall (bb : nat) s (o : Z), bufv = VPtr bb o -> str_at m bb s -> Z.of_nat (length s) + 2 <= 2147483647) ->
+  (b <= e)%nat -> i31 e -> i31 (length (ln lb) + linecount buf) -> Z.of_nat (hist_sz lb) * 2 <= 2147483647 ->
+  (length (hist lb) + 35 < fuel)%nat -> (linecount buf < fuel)%nat ->
+  let b' := Nat.min b (length (ln lb)) in let e' := Nat.min e (length (ln lb)) in
+  let need := Z.of_nat (length (ln lb)) + Z.of_nat (linecount buf) - Z.of_nat (e' - b') in
+  nth_error blk L_ln_sz = Some (VInt (Z.of_nat cap0)) -> IoDefs.grow (IoDefs.grow_fuel need) need (Z.of_nat cap0) = Some cap' -> cap' <= 2147483647 ->
+  (splice_fuel (length (ln lb)) (linecount buf) (e' - b') <= fuelR)%nat ->
+  (forall (m1 : mem) (blk1 : block),
+     callx ext cprog fuel (S (S (S (S d)))) F_lbuf_opt [VPtr bl 0; bufv; VInt (Z.of_nat b'); VInt (Z.of_nat (e' - b'))] m = Ok (VUndef, m1) ->
+     nth_error m1 bl = Some blk1 ->
+     forall k, (k < 32)%nat -> exists z, nth_error blk1 k = Some (VInt z) /\ row_fits (Z.of_nat b') (Z.of_nat (e' - b')) (Z.of_nat (linecount buf)) z) ->
+  andb (Nat.eqb b' e') (is_none buf) = false -> lone_edit lb -> Forall line_wf (ln lb) ->
+  let lb1 := lbuf_edit lb buf b e in let lb2 := undo1 lb1 in
+  (forall m1, callx ext cprog fuel (S (S (S (S (S d))))) F_lbuf_edit [VPtr bl 0; bufv; VInt (Z.of_nat b); VInt (Z.of_nat e)] m = Ok (VUndef, m1) ->
+     let lo := nth (hist_u lb1 - 1) (hist lb1) dflt in step_ok fuelR bl m1 (length (ln lb1)) (del lo) (pos lo) (n_ins lo)) ->
+  (forall m1 m2, callx ext cprog fuel (S (S (S (S (S d))))) F_lbuf_edit [VPtr bl 0; bufv; VInt (Z.of_nat b); VInt (Z.of_nat e)] m = Ok (VUndef, m1) ->
+     callx ext cprog fuel (S (S (S (S d)))) F_lbuf_undo [VPtr bl 0] m1 = Ok (VInt 0, m2) ->
+     let lo := nth (hist_u lb2) (hist lb2) dflt in step_ok fuelR bl m2 (length (ln lb2)) (ins lo) (pos lo) (n_del lo)) ->
+  exists (m1 m2 m3 : mem) (blk2 blk3 : block) (bh' : nat) (hblk' : block),
+    callx ext cprog fuel (S (S (S (S (S d))))) F_lbuf_edit [VPtr bl 0; bufv; VInt (Z.of_nat b); VInt (Z.of_nat e)] m = Ok (VUndef, m1) /\
+    callx ext cprog fuel (S (S (S (S d)))) F_lbuf_undo [VPtr bl 0] m1 = Ok (VInt 0, m2) /\
+    callx ext cprog fuel (S (S (S (S d)))) F_lbuf_redo [VPtr bl 0] m2 = Ok (VInt 0, m3) /\
+    urep Tc m2 bl blk2 bh' hblk' lb2 /\ ln lb2 = ln lb /\
+    urep Tc m3 bl blk3 bh' hblk' (redo1 lb2) /\ ln (redo1 lb2) = edit_text (ln lb) buf b e.
+Proof. exact tr_undo_inverts_edit_ranges. Qed.
+Print Assumptions C04_tr_undo_inverts_edit_ranges.
+
+Theorem C04_tr_fits_of_bounds : forall (blk : block) (n : nat) (s : option (list N)) (p nd cap : nat), (nd <= n)%nat ->
+  (forall k, (k < 32)%nat -> exists z, nth_error blk k = Some (VInt z) /\ i32 z /\ z + Z.of_nat (linecount s) <= 2147483647) ->
+  nth_error blk L_ln_sz = Some (VInt (Z.of_nat cap)) -> (0 < cap)%nat -> Z.of_nat cap <= 2147483647 ->
+  2 * (Z.of_nat n + Z.of_nat (linecount s)) <= 2147483647 ->
+  exists cap', fits blk n s p nd cap'.
+Proof. exact fits_of_bounds. Qed.
+Print Assumptions C04_tr_fits_of_bounds.
+End C04_translated_composed2.
